@@ -105,6 +105,17 @@ def handle (line : String) : String :=
         | none => "never-returns"
       | _, _ => "bad-op"
     | none => "bad-op"
+  | ["strbuf", chunks] =>
+    match (chunks.splitOn ",").mapM (·.toNat?) with
+    | some cs => showO (fun s => s!"used={s.used} terminated={s.terminated}") (strBufRun strBufCfg (strBufInit strBufCfg) cs)
+    | none => "bad-op"
+  | ["selectsearch", n] =>
+    match n.toNat? with
+    | some n =>
+      match visit selectSearchMarkStable (fun i => [(i + 1) % (max n 1)]) (n + 2) [] 0 with
+      | some m => s!"returns marked={m.length}"
+      | none => "never-returns"
+    | none => "bad-op"
   | ["filename", n] =>
     match n.toNat? with
     | some n => showO toString (fileNameOut fileNameCfg n)
